@@ -2,7 +2,7 @@
 to the real session by harness/sess/sendpath.go: release orders forced at gates inside application-provided
 code (counter store, message store, outgoing handler, the message's ToBytes) in real time, plus free-running
 senders + inbound replies + both timers in virtual time; the wire is validated by WireTrace.tla."""
-import itertools, json, random
+import itertools, json, os, random
 from vlib import *
 import session_checks as sc
 
@@ -34,6 +34,26 @@ def check(prop, tier, seed):
             if not violated:
                 raise Inconclusive("SPEC-ERROR: weakened SendPath (SessionLock=%s HandlerLock=%s AtomicCounter=%s) does not violate WireConsecutive: vacuous" % (s, h, a))
             run.extra.setdefault("weakened_variants_violating", []).append("SessionLock=%s HandlerLock=%s AtomicCounter=%s" % (s, h, a))
+    # unbounded number of messages: inductive invariant of SendPathInd discharged by Apalache (two obligations), and the
+    # weakened variant must fail (non-vacuity)
+    import shutil, tempfile
+    apa = tempfile.mkdtemp(prefix="verif-apalache-")
+    try:
+        shutil.copy(os.path.join(SPEC, "SendPathInd.tla"), apa)
+        obligations = [("Init => IndInv", ["--cinit=CInit", "--init=Init", "--inv=IndInv", "--length=0"], True),
+                       ("IndInv /\\ Next => IndInv'", ["--cinit=CInit", "--init=IndInit", "--inv=IndInv", "--length=1"], True),
+                       ("weakened (no session lock): IndInv /\\ Next => IndInv' must FAIL", ["--cinit=CInitWeak", "--init=IndInit", "--inv=IndInv", "--length=1"], False)]
+        done = []
+        for name, args, must_hold in obligations:
+            p = sh(["apalache-mc", "check"] + args + ["SendPathInd.tla"], cwd=apa, timeout=900, check=False)
+            holds = "EXITCODE: OK" in (p.stdout or "")
+            if holds != must_hold:
+                raise Inconclusive("SPEC-ERROR: Apalache obligation '%s': expected %s\n%s" % (name, "to hold" if must_hold else "a counterexample", (p.stdout or "")[-1500:]))
+            done.append(name)
+        run.extra["apalache_inductive_invariant"] = {"module": "SendPathInd.tla", "senders": 3, "messages": "unbounded", "obligations_discharged": done[:2],
+                                                     "non_vacuity": done[2]}
+    finally:
+        shutil.rmtree(apa, ignore_errors=True)
     # schedules: every release order of n senders at every gate (covers the counterexamples of the weakened variants)
     scns = []
     k = 0
@@ -52,7 +72,7 @@ def check(prop, tier, seed):
                                      startSeq=rnd.choice([0, 0, 4]), buf=rnd.choice([1, 10]), replyAt=rnd.randint(0, n)))
                     k += 1
     ngate = len(scns)
-    for i in range(40 if quick else 400):
+    for i in range(40 if quick else 1500):
         scns.append(dict(id="stress-%d" % i, kind="stress", role=rnd.choice(["acceptor", "initiator"]), n=rnd.choice([2, 4, 8, 16]),
                          perSender=rnd.choice([3, 10, 30]), hb=rnd.choice([1, 2]), seed=rnd.randint(1, 10**6),
                          startSeq=rnd.choice([0, 0, 7]), buf=rnd.choice([0, 1, 10]), replyAt=-1, **{"yield": rnd.choice([0, 3, 10, 30])}))
